@@ -61,6 +61,12 @@ CHECKS = {
         text='For each real file and generated program several equivalent layouts are produced; the analysis results must correspond one to one (diagnostics sequence, visible names, undefined flag, definitions). The relation is exact and needs no reference analysis, so any position-comparison bug shows as a difference between two runs of supp itself.',
         design_ref='DESIGN.md section 4 (C13)',
         note='Variants that do not parse to the identical AST are discarded and counted (0.2% on this tree); NAME-token ordinals identify bindings across layouts.'),
+    'C12': dict(
+        technique='property-based testing of the completion contract: regex oracle for the prefix, well-formedness predicate for proposals, metamorphic relation marked vs unmarked analysis (transparency); enumerated preceding-character classes + corpus and generated positions',
+        category='exploration',
+        text='Three oracles at every sampled cursor: the prefix must equal the identifier characters left of the cursor (pure text), the proposal list must be sorted / duplicate-free / identifiers / marker-free, and inserting the cursor must not change the analysis (proposals equal what the unmarked analysis makes visible there, for bare names and for `expr.`). The preceding-character classes the property lists are enumerated in synthetic lines.',
+        design_ref='DESIGN.md section 4 (C12)',
+        note='Positions where the marked text does not parse are skipped (SyntaxError is allowed there, C08 owns that rule); non-ASCII lines skipped.'),
 }
 
 NOT_YET = 'check not built yet in this session (planned in DESIGN.md section 4); not claimed until its command exists'
